@@ -125,7 +125,7 @@ def check(ctx):
 
     # ---- oracle through the public classes
     from symfc import Symfc
-    cells = [("tri1", (2, 2, 1), None), ("tri2_P1", (1, 1, 1), None), ("mono_P", (1, 1, 1), None), ("hcp", (1, 1, 1), None), ("tri1", (2, 2, 1), 3.9), ("tri2_P1", (2, 1, 1), 4.2), ("sheared", (1, 1, 1), None), ("tri2_P1", (3, 1, 1), None), ("p4_general", (1, 1, 1), None)]
+    cells = [("tri1", (2, 2, 1), None), ("tri2_P1", (1, 1, 1), None), ("mono_P", (1, 1, 1), None), ("hcp", (1, 1, 1), None), ("tri1", (2, 2, 1), 3.9), ("tri2_P1", (2, 1, 1), 4.2), ("sheared", (1, 1, 1), None), ("tri2_P1", (3, 1, 1), None), ("p4_general", (1, 1, 1), None), ("guest", (1, 1, 1), 2.2), ("guest", (2, 1, 1), 2.2)]
     if not ctx.quick:
         cells += [("tri1", (2, 2, 2), None), ("tri1", (3, 1, 1), 5.0), ("ortho_C", (1, 1, 2), None), ("mono_C", (1, 1, 1), 4.0), ("rhombo1", (2, 2, 1), None), ("needle", (1, 1, 1), None)]
     for cname, diag, cut in cells:
@@ -159,6 +159,11 @@ def check(ctx):
                     r, k = sum_rule_residual(v, order)
                     if r > worst:
                         worst, arg = r, k
+                # every column takes part: a random combination of all expanded basis vectors
+                comb = np.tensordot(rng.normal(size=nb), T, axes=(0, 0))
+                r, k = sum_rule_residual(comb, order)
+                if r > worst:
+                    worst, arg = r, k
                 ctx.case({"cell": sc["name"], "order": order, "cutoff": cut, "eig_path": "large" if thr else "default", "n_basis": int(nb)}, nontrivial=True)
                 ctx.count("cell-basis")
                 if worst > 1e-8:
